@@ -73,6 +73,10 @@ def evaluate(vs, ls, unis=(), level=2, unhashable=True, searches=True):
                     elif fname == "unhashable" and f is None:
                         continue
                     out.append((f"nb v{i} d{d} u{u} {fname}", _call(lambda: helpers.neighbors(v, d, u, f), vl)))
+        # two short-lived callables with different behaviour (a cache keyed on anything but the
+        # callable itself, e.g. its id(), would confuse them)
+        out.append((f"nb v{i} d1 u1 fresh-accept", _call(lambda: helpers.neighbors(v, 1, 1, lambda e, x: True), vl)))
+        out.append((f"nb v{i} d1 u1 fresh-reject", _call(lambda: helpers.neighbors(v, 1, 1, lambda e, x: False), vl)))
     if level < 2:
         return out
     universes = [None] + list(unis)
